@@ -595,7 +595,7 @@ func round2(f float64) float64 { return float64(int64(f*100+0.5)) / 100 }
 // ---------- replay command ----------
 
 func cmdReplay(args []string) int {
-	pos, _ := parseArgs(args)
+	pos, opts := parseArgs(args)
 	if len(pos) < 2 {
 		fmt.Fprintln(os.Stderr, "usage: gosym replay <property> <replay.json>")
 		return 2
@@ -634,6 +634,18 @@ func cmdReplay(args []string) int {
 		return 2
 	}
 	abs, _ := filepath.Abs(pos[1])
+	if end, viols, obs, err := runConcrete(ld, k, rf.Tier, rf.Vector, rf.Params); err == nil {
+		fmt.Printf("concrete interpretation: end=%s %s\n", end.kind, firstLine(end.msg))
+		for _, v := range viols {
+			fmt.Printf("  %s: %s\n", v.Kind, v.Msg)
+		}
+		for _, o := range obs {
+			fmt.Printf("  observe %s\n", o)
+		}
+	}
+	if _, fast := opts["fast"]; fast {
+		return 0
+	}
 	ok, how := confirmViolation(ld, all, k, &rf, abs, filepath.Join(workDir, "r"))
 	if ok {
 		fmt.Printf("replay reproduces the violation (%s): %s %s\n", how, rf.Kind, firstLine(rf.Msg))
